@@ -84,14 +84,14 @@ Proof. exact scalar_object_exact. Qed.
 Print Assumptions C02_scalar_objects_exact.
 
 (* ... and through every depth: objects whose properties are such scalars, numbers with any combination of the four bounds (no
-   multipleOf), arrays of plain strings with any item-count limits, or, recursively, such objects again, nested n levels deep
+   multipleOf), arrays of plain strings with any item-count limits, references to definitions that are such objects, or, recursively, such objects again, nested n levels deep
    ([sobj n]); documents without nulls (array items included), with ASCII strings, integer literals inside Go's int and distinct keys at
    every level ([dok n]).
    By induction on n over C02_level_exact: the check attached to an object-valued property is the nested struct's own method. *)
 Theorem C02_nested_objects_exact : forall idf cf defs fmt_ok env sdefs,
   g_minsized cf = false -> g_only_models cf = false ->
   forall n a b c self sub s scope t bb kv,
-  scope <> [] -> sobj idf n s -> dok idf n s kv ->
+  scope <> [] -> sobj idf cf defs env sdefs n s -> dok idf cf defs env sdefs n s kv ->
   gen idf cf defs (fuelG n a) MDeclared self sub s scope = Done (t, bb) ->
   is_ok (dec fmt_ok env (fuelD n b) t (JObj kv)) = valid fmt_ok sdefs (fuelV n c) s (JObj kv).
 Proof. exact nested_object_exact. Qed.
@@ -117,6 +117,15 @@ Theorem C02_flat_inhabited :
     map (fun kv => valid (fun _ _ => true) [] (fuelV 0 0) ex_flat (JObj kv)) [ex_flat_ok; ex_flat_long; ex_flat_low] = [true; false; false].
 Proof. exact flat_inhabited. Qed.
 Print Assumptions C02_flat_inhabited.
+
+(* non-vacuity of the reference case: {r: $ref D (required), b: string maxLength 3}, D an object definition, env = the declared type of D *)
+Theorem C02_ref_inhabited :
+  exists t b, gen (fun s => s) (mkCfg false false) ex_defs (fuelG 1 0) MDeclared None false ex_refroot [82]%N = Done (t, b) /\
+    (forall kv, In kv [ex_ref_doc; ex_ref_bad] ->
+       is_ok (dec (fun _ _ => true) ex_env (fuelD 1 0) t (JObj kv)) = valid (fun _ _ => true) ex_defs (fuelV 1 0) ex_refroot (JObj kv)) /\
+    map (fun kv => valid (fun _ _ => true) ex_defs (fuelV 1 0) ex_refroot (JObj kv)) [ex_ref_doc; ex_ref_bad] = [true; false].
+Proof. exact ref_inhabited. Qed.
+Print Assumptions C02_ref_inhabited.
 
 Theorem C02_string : forall fmt_ok env f s, dec fmt_ok env (S f) TString (JStr s) = Ok (GS s).
 Proof. exact dec_string_lossless. Qed.
